@@ -101,6 +101,7 @@ def build(tier="quick", seed=0):
         return paths, intact
 
     SELECTORS = {None: lambda r: True, "r.n >= 2": lambda r: it.unbase(r.attrs["n"]) >= 2, "r.n != 3 and has_field(r, 's')": lambda r: it.unbase(r.attrs["n"]) != 3 and "s" in r.attrs, "name(r) == 'c16/b' or r.n == 0": lambda r: r.cls.name == "c16_b" or it.unbase(r.attrs["n"]) == 0,
+                 "r._source == None": lambda r: r.attrs.get("_source") is None, "r.t is not None": lambda r: True, "(r.t == 't1') == False": lambda r: it.unbase(r.attrs.get("t")) != "t1",
                  "r.nosuch == 1": lambda r: False, "r.n >= 1": lambda r: it.unbase(r.attrs["n"]) >= 1, "any(x == r.n for x in (0, 2, 3, 5))": lambda r: it.unbase(r.attrs["n"]) in (0, 2, 3, 5)}
 
     def reference(intact, opts):
@@ -223,6 +224,11 @@ def build(tier="quick", seed=0):
     OPTS = [{}, {"skip": 1}, {"skip": 2, "count": 2}, {"count": 1}, {"count": 0}, {"skip": 7}, {"selector": "r.n >= 2"}, {"selector": "r.n >= 2", "skip": 1, "count": 2}, {"selector": "r.n >= 2", "no_compile": True, "skip": 1, "count": 2},
             {"selector": "r.n != 3 and has_field(r, 's')", "no_compile": True}, {"selector": "name(r) == 'c16/b' or r.n == 0"}, {"selector": "r.nosuch == 1"}, {"fields": ["s", "n"]}, {"exclude": ["ts", "ts2"]}, {"fields": ["n", "s", "nosuch"], "exclude": ["s"]},
             {"selector": "any(x == r.n for x in (0, 2, 3, 5))", "no_compile": True}, {"selector": "any(x == r.n for x in (0, 2, 3, 5))"}, {"record_source": "src-x"}, {"record_classification": "cls-y", "record_source": ""}, {"multi_timestamp": True}, {"multi_timestamp": True, "exclude": ["ts2"], "skip": 1}, {"selector": "r.n >= 1", "skip": 1, "count": 3, "fields": ["n", "ts"], "record_source": "z", "multi_timestamp": True}]
+
+    # the selector looks at the records AS READ (metadata overrides are applied to what is written); identity tests and compared comparison results on a field that a
+    # record type lacks mean the same to both engines
+    OPTS += [{"selector": "r._source == None", "record_source": "merged"}, {"selector": "r._source == None", "record_source": "merged", "no_compile": True}, {"selector": "r._source == None", "record_classification": "c", "skip": 1, "count": 3},
+             {"selector": "r.t is not None"}, {"selector": "r.t is not None", "no_compile": True}, {"selector": "(r.t == 't1') == False"}, {"selector": "(r.t == 't1') == False", "no_compile": True}]
 
     def th_pipeline(opts):
         def th():
